@@ -19,8 +19,19 @@ import (
 //gosym:harness
 //gosym:cover pipeline-failed pipeline-ok gc-deleted foreign-referenced observe-failed never-stabilises
 func HarnessC03Pipeline() {
-	n := zz.Bound(2, 3)
-	nSteps := zz.Bound(2, 3)
+	zzC03Pipeline(2, zz.Bound(2, 3), true)
+}
+
+// HarnessC03Wide: three candidate names, two steps, without the requirement
+// rounds and observation faults the other harness explores.
+//
+//gosym:harness thorough
+//gosym:cover pipeline-failed pipeline-ok gc-deleted foreign-referenced
+func HarnessC03Wide() {
+	zzC03Pipeline(3, 2, false)
+}
+
+func zzC03Pipeline(n, nSteps int, full bool) {
 	s := kube.New()
 	foreign := zz.Str("foreign.uid")
 	zz.Assume(foreign != zzXRUIDc)
@@ -45,8 +56,11 @@ func HarnessC03Pipeline() {
 			}
 		}
 		outcomes := 4
-		if i == 0 {
+		if i == 0 && full {
 			outcomes = 5
+		}
+		if !full {
+			outcomes = 3 // normal, warning, fatal
 		}
 		switch zz.Choose(nm+".outcome", outcomes) {
 		case 1:
@@ -76,7 +90,10 @@ func HarnessC03Pipeline() {
 
 	// observing may fail: a fault on one of the first calls (the Gets of the
 	// referenced resources)
-	s.FaultAt = zz.Choose("observe.fault", 3) - 1
+	s.FaultAt = -1
+	if full {
+		s.FaultAt = zz.Choose("observe.fault", 3) - 1
+	}
 	s.FaultKind = kube.FaultErrNoEffect
 	nRefs := len(refsBefore)
 
